@@ -78,6 +78,25 @@ func boundText(kind byte, v int, name string, decl *strings.Builder) string {
 	case 'A':
 		fmt.Fprintf(decl, "\t%s := %d\n", name, v-1)
 		return "(" + name + " + 1)"
+	case 'M': // negated identifier: the syntactic sign is the opposite of the variable's
+		fmt.Fprintf(decl, "\t%s := %d\n", name, -v)
+		return "-" + name
+	case 'R': // parenthesised identifier
+		fmt.Fprintf(decl, "\t%s := %d\n", name, v)
+		return "(" + name + ")"
+	case 'Q': // selector
+		fmt.Fprintf(decl, "\t%s := &box{%d}\n", name, v)
+		return name + ".n"
+	case 'X': // index
+		fmt.Fprintf(decl, "\t%s := []int{0, %d}\n", name, v)
+		return name + "[1]"
+	case 'D': // negated parenthesised literal: -(-2) is 2, -(2) is -2
+		if v > 0 {
+			return fmt.Sprintf("-(-%d)", v)
+		}
+		return fmt.Sprintf("-(%d)", -v)
+	case 'F': // negated call
+		return fmt.Sprintf("-pv(%d)", -v)
 	}
 	return ""
 }
@@ -119,6 +138,37 @@ func chk(i int) bool {
 }
 
 func pv(x int) int {
+	return x
+}
+
+type box struct {
+	n int
+}
+
+type box3 struct {
+	s, e, k int
+}
+
+// storage behind the operands of the mutation probes, and the body's mutation
+var me, mk int
+var mqe, mqk = &box{}, &box{}
+var ma = []int{0, 0, 0}
+var mutN int
+
+func bump() {
+	mutN++
+	if mutN <= 3 {
+		me++
+		mk++
+		mqe.n++
+		mqk.n++
+		ma[1]++
+		ma[2]++
+	}
+}
+
+func bumpx(x int) int {
+	bump()
 	return x
 }
 
@@ -200,6 +250,9 @@ func gridFunc(sb *strings.Builder, G, K int) {
 	sb.WriteString("\t\t\t\tif gk == 0 {\n\t\t\t\t\tcontinue\n\t\t\t\t}\n")
 	contexts(sb, "\t\t\t\t", "gs:ge:gk", `"GV"`, "gs", "ge", "gk", 0, false)
 	contexts(sb, "\t\t\t\t", "(gs + 0):(ge + 0):(gk + 0)", `"GA"`, "gs", "ge", "gk", 0, true)
+	sb.WriteString("\t\t\t\tgn := -gk\n\t\t\t\tgq := &box3{gs, ge, gk}\n")
+	contexts(sb, "\t\t\t\t", "gs:ge:-gn", `"GM"`, "gs", "ge", "gk", 0, false)
+	contexts(sb, "\t\t\t\t", "gq.s:gq.e:gq.k", `"GQ"`, "gs", "ge", "gk", 0, true)
 	sb.WriteString("\t\t\t}\n")
 	// omitted parts
 	contexts(sb, "\t\t\t", "gs:ge", `"GS"`, "gs", "ge", "1", 0, false)
@@ -233,6 +286,149 @@ var fixed = []probe{
 	{[3]byte{'A', 'A', 'A'}, -7, 7, 5},
 	{[3]byte{'N', 'N', 'N'}, -1, -9, -3},
 	{[3]byte{'_', 'N', 'N'}, 0, -9, -3},
+	{[3]byte{'L', 'L', 'M'}, 0, 10, 2},  // step written -k with k == -2
+	{[3]byte{'L', 'L', 'D'}, 0, 10, 2},  // -(-2)
+	{[3]byte{'L', 'L', 'F'}, 0, 10, 2},  // -pv(-2)
+	{[3]byte{'L', 'L', 'M'}, 10, 0, -2}, // -k with k == 2
+	{[3]byte{'M', 'M', 'M'}, 3, 9, 2},
+	{[3]byte{'Q', 'Q', 'Q'}, 0, 3, 1},
+	{[3]byte{'X', 'X', 'X'}, -2, 7, 3},
+	{[3]byte{'R', 'R', 'R'}, 1, 6, 2},
+	{[3]byte{'L', 'Q', '_'}, 0, 3, 1},
+	{[3]byte{'D', 'F', 'D'}, -4, 5, 4},
+}
+
+// Mutation probes: the loop body changes the variable / field / element an operand reads.
+// By the documented meaning (and in the comprehension, whose element expression does the same
+// mutation) the operands are evaluated once, before the loop.
+type mprobe struct {
+	ek, kk  byte // operand form of end and step: L literal, V identifier, R (v), A (v + 0), Q selector, X index, P call reading the variable, M negated identifier
+	s, e, k int
+}
+
+var formName = map[byte]string{'V': "ident", 'R': "paren", 'A': "arith", 'Q': "selector", 'X': "index", 'P': "call", 'M': "negated-ident"}
+
+func (m mprobe) caseLine(op, ctx string) string {
+	return fmt.Sprintf("%s\t%s/L%c%c\t%d\t%d\t%d\t%d", op, ctx, m.ek, m.kk, capN, m.s, m.e, m.k)
+}
+
+func mEnd(kind byte, v int) string {
+	switch kind {
+	case 'V':
+		return "me"
+	case 'R':
+		return "(me)"
+	case 'A':
+		return "(me + 0)"
+	case 'Q':
+		return "mqe.n"
+	case 'X':
+		return "ma[1]"
+	case 'P':
+		return "pv(me)"
+	}
+	return strconv.Itoa(v)
+}
+
+func mStep(kind byte, v int) string {
+	switch kind {
+	case 'V':
+		return "mk"
+	case 'R':
+		return "(mk)"
+	case 'A':
+		return "(mk + 0)"
+	case 'Q':
+		return "mqk.n"
+	case 'X':
+		return "ma[2]"
+	case 'P':
+		return "pv(mk)"
+	case 'M':
+		return "-mk"
+	}
+	return strconv.Itoa(v)
+}
+
+func mprobeFunc(sb *strings.Builder, idx int, m mprobe) {
+	R := fmt.Sprintf("%d:%s:%s", m.s, mEnd(m.ek, m.e), mStep(m.kk, m.k))
+	if m.s < 0 {
+		R = fmt.Sprintf("-%d:%s:%s", -m.s, mEnd(m.ek, m.e), mStep(m.kk, m.k))
+	}
+	mk := m.k
+	if m.kk == 'M' {
+		mk = -m.k
+	}
+	reset := fmt.Sprintf("\tme, mk, mqe.n, mqk.n, ma[1], ma[2], mutN = %d, %d, %d, %d, %d, %d, 0\n\ta = nil\n\tcapped = false\n", m.e, mk, m.e, m.k, m.e, m.k)
+	body := fmt.Sprintf("\t\tbump()\n\t\ta = append(a, i)\n\t\tif len(a) >= %d {\n\t\t\tcapped = true\n\t\t\tbreak\n\t\t}\n\t}\n", capN)
+	tag := fmt.Sprintf("\"M%d\"", idx)
+	fmt.Fprintf(sb, "func m%d() {\n\tvar a []int\n\tvar capped bool\n\tvar j int\n\t_ = j\n", idx)
+	sb.WriteString(reset)
+	fmt.Fprintf(sb, "\tfor i in %s {\n%s\temit %s, 0, 0, 0, \"min\", capped, a\n", R, body, tag)
+	sb.WriteString(reset)
+	fmt.Fprintf(sb, "\tfor i := range %s {\n%s\temit %s, 0, 0, 0, \"mrange\", capped, a\n", R, body, tag)
+	sb.WriteString(reset)
+	fmt.Fprintf(sb, "\tfor j = range %s {\n%s\temit %s, 0, 0, 0, \"massign\", capped, a\n", R, strings.ReplaceAll(body, "append(a, i)", "append(a, j)"), tag)
+	sb.WriteString(reset)
+	fmt.Fprintf(sb, "\ta = [bumpx(x) for x in %s]\n\temit %s, 0, 0, 0, \"mcomp\", capped, a\n}\n\n", R, tag)
+}
+
+func genMProbes(r *vh.Rand, n int) []mprobe {
+	forms := []byte("VRAQXP")
+	var ms []mprobe
+	add := func(ek, kk byte, rr *vh.Rand) {
+		s := rr.Intn(7) - 3
+		ms = append(ms, mprobe{ek, kk, s, s + 1 + rr.Intn(8), 1 + rr.Intn(3)})
+	}
+	i := 0
+	for _, f := range forms { // every form as end, as step, as both
+		add(f, 'L', r.Fork(i))
+		add('L', f, r.Fork(i+1))
+		add(f, f, r.Fork(i+2))
+		i += 3
+	}
+	add('L', 'M', r.Fork(i))
+	for len(ms) < n {
+		i++
+		rr := r.Fork(i)
+		f := forms[rr.Intn(len(forms))]
+		switch rr.Intn(3) {
+		case 0:
+			add(f, 'L', rr)
+		case 1:
+			add('L', f, rr)
+		default:
+			add(f, f, rr)
+		}
+	}
+	return ms
+}
+
+func reportMut(o *vh.Out, m mprobe, get func(ctx string) line) {
+	comp := get("mcomp")
+	form := m.ek
+	if form == 'L' {
+		form = m.kk
+	}
+	simple := m.ek == 'V' || m.kk == 'V' // identifiers stay in the loop header (modelled: no temporary)
+	o.Count("mutation_probes")
+	o.Count("mutation_form_" + formName[form])
+	o.Case(m.caseLine("renum", "mcomp"), comp.String(), true)
+	var all []string
+	bad := false
+	for _, c := range []string{"min", "mrange", "massign"} {
+		l := get(c)
+		if !simple {
+			o.Case(m.caseLine("rfor", c), l.String(), true)
+		}
+		all = append(all, c+"="+l.String())
+		if l.String() != comp.String() {
+			bad = true
+		}
+	}
+	if bad {
+		o.Oracle("mutated-bound-"+formName[form], m.caseLine("rfor", "min"), strings.Join(all, " ")+" mcomp="+comp.String())
+	}
 }
 
 func genProbe(r *vh.Rand) probe {
@@ -258,7 +454,7 @@ func genProbe(r *vh.Rand) probe {
 		}
 	}
 	kind := func(v int) byte {
-		ks := "LVKPSA"
+		ks := "LVKPSAMRQXDF"
 		c := ks[r.Intn(len(ks))]
 		if c == 'L' && v < 0 {
 			c = 'N'
@@ -384,18 +580,24 @@ func report(o *vh.Out, p probe, get func(ctx string) line) {
 	}
 }
 
-func run(f *vh.Flags, o *vh.Out, probes []probe, G, K int) error {
+func run(f *vh.Flags, o *vh.Out, probes []probe, mprobes []mprobe, G, K int) error {
 	var sb strings.Builder
 	sb.WriteString(prelude)
 	r := vh.NewRand(f.Seed ^ 0x5bd1e995)
 	for i, p := range probes {
 		probeFunc(&sb, i, p, r.Bool())
 	}
+	for i, m := range mprobes {
+		mprobeFunc(&sb, i, m)
+	}
 	if G > 0 {
 		gridFunc(&sb, G, K)
 	}
 	for i := range probes {
 		fmt.Fprintf(&sb, "p%d()\n", i)
+	}
+	for i := range mprobes {
+		fmt.Fprintf(&sb, "m%d()\n", i)
 	}
 	if G > 0 {
 		sb.WriteString("grid()\n")
@@ -424,6 +626,10 @@ func run(f *vh.Flags, o *vh.Out, probes []probe, G, K int) error {
 		return fmt.Errorf("generated program failed: %s", msg)
 	}
 	out := parseOut(res[0].Stdout)
+	for i, m := range mprobes {
+		tag := fmt.Sprintf("M%d|0|0|0|", i)
+		reportMut(o, m, func(ctx string) line { return out[tag+ctx] })
+	}
 	for i, p := range probes {
 		tag := fmt.Sprintf("P%d|0|0|0|", i)
 		report(o, p, func(ctx string) line { return out[tag+ctx] })
@@ -441,6 +647,8 @@ func run(f *vh.Flags, o *vh.Out, probes []probe, G, K int) error {
 					if k != 0 {
 						grid("GV", "VVV", s, e, k)
 						grid("GA", "AAA", s, e, k)
+						grid("GM", "VVM", s, e, k)
+						grid("GQ", "QQQ", s, e, k)
 					}
 				}
 				grid("GS", "VV_", s, e, 1)
@@ -511,7 +719,11 @@ func main() {
 	if f.Replay != "" {
 		p, err := parseReplay(f.Replay)
 		if err == nil {
-			err = run(f, o, []probe{p}, 0, 0)
+			if fs := strings.Fields(strings.ReplaceAll(f.Replay, "\t", " ")); strings.HasPrefix(fs[1], "m") {
+				err = run(f, o, nil, []mprobe{{p.kinds[1], p.kinds[2], p.s, p.e, p.k}}, 0, 0)
+			} else {
+				err = run(f, o, []probe{p}, nil, 0, 0)
+			}
 		}
 		if err != nil {
 			fmt.Println(err)
@@ -530,7 +742,11 @@ func main() {
 		G, K = 12, 12
 	}
 	o.Stats["grid_G"], o.Stats["grid_K"] = G, K
-	if err := run(f, o, probes, G, K); err != nil {
+	nm := 40
+	if f.Tier == "thorough" {
+		nm = 300
+	}
+	if err := run(f, o, probes, genMProbes(vh.NewRand(f.Seed^0x6d75), nm), G, K); err != nil {
 		fmt.Println(err)
 		o.Close()
 		os.Exit(1)
